@@ -109,18 +109,6 @@ func evalCells(m *matrix, fns []*ssa.Function, lang, dir string) []cellResult {
 			if !res.ok {
 				res.have = union
 			}
-			// every emitter function that consumes the other inputs of a byte-order-sensitive clause must itself be byte-order sensitive
-			if res.ok && cl.need&sLE != 0 && cl.need != sLE {
-				for _, g := range groups {
-					rest := cl.need &^ sLE
-					if g.root && g.data&rest == rest && g.deps&sLE == 0 {
-						res.ok = false
-						res.have = g.deps
-						res.where = fnKey(g.fn)
-						res.partial = fmt.Sprintf("%s consumes %s for this cell but never the byte order", fnKey(g.fn), rest)
-					}
-				}
-			}
 			out = append(out, res)
 		}
 		if len(cls) == 0 {
